@@ -911,6 +911,12 @@ var ReverseListFunc = function.New(&function.Spec{
 	RefineResult: refineNonNull,
 	Impl: func(args []cty.Value, retType cty.Type) (ret cty.Value, err error) {
 		in, marks := args[0].Unmark()
+		if in.Type().IsSetType() && !in.IsWhollyKnown() {
+			// The iteration order of a set (and even its number of elements)
+			// depends on the final values of all of its elements, so we
+			// can't predict the result while any of them is unknown.
+			return cty.UnknownVal(retType).WithMarks(marks), nil
+		}
 		inVals := in.AsValueSlice()
 		outVals := make([]cty.Value, len(inVals))
 
